@@ -409,6 +409,10 @@ type vfCoreProp struct {
 	Adopt     func(f *vfFinding) bool // findings of other properties' oracles that this property's statement also covers
 }
 
+// vfCoreStages: property-specific files register further stages (run in the parent after the
+// core engine's shards have been merged)
+var vfCoreStages = map[string]func(env *vfEnv, part *vfPart, spec *vfSpec){}
+
 // property-specific files register further core-engine properties here
 var vfExtraCoreProps []func(m map[string]*vfCoreProp, base vfProfile)
 
@@ -546,6 +550,10 @@ func vfRunCoreCheck(t *testing.T, prop string) {
 		return // shard child
 	}
 	spec := &vfSpec{Prop: prop, Level: "exploration", Rule: cp.Rule, NontrivSet: "nontrivial", Assumptions: cp.Assumptions, Floors: cp.Floors}
+	// further stages of the property (other engines) report into the same part
+	if st := vfCoreStages[prop]; st != nil && env.Replay == "" {
+		st(env, part, spec)
+	}
 	vfFinish(t, env, spec, part, start)
 }
 
